@@ -5,3 +5,5 @@ import Rp2.Props.C08
 #print axioms Rp2.C08.model_rejected_iff
 #print axioms Rp2.C08.model_allow_negative
 #print axioms Rp2.C08.model_never_negative_never_rejected
+#print axioms Rp2.C08.source_overdraft_test_is_tolerance
+#print axioms Rp2.C08.source_loop_round_rejects_iff_model
